@@ -128,6 +128,10 @@ type prefixTest struct {
 	site            ssa.Instruction
 	subject, prefix ssa.Value
 	name            string // construct name
+	// a hand-expanded test whose separator is checked on its own:
+	// s[len(p)] == '/' && s[:len(p)] == p (the prefix test is only reached when
+	// the byte after the prefix is the separator)
+	sepChecked bool
 }
 
 func (c *Ctx) prefixTests(fn *ssa.Function) []prefixTest {
@@ -156,7 +160,39 @@ func (c *Ctx) prefixTests(fn *ssa.Function) []prefixTest {
 				// a[:len(b)] == b
 				if eng.SameValue(lc.Call.Args[0], o[1]) || x.StructKeyAtEntry(lc.Call.Args[0]) == x.StructKeyAtEntry(o[1]) {
 					manual++
-					out = append(out, prefixTest{site: v, subject: sl.X, prefix: o[1], name: fmt.Sprintf("%s/prefix-comparison#%d", c.name(c.owner(v)), manual)})
+					pt := prefixTest{site: v, subject: sl.X, prefix: o[1], name: fmt.Sprintf("%s/prefix-comparison#%d", c.name(c.owner(v)), manual)}
+					// the companion test of the byte that follows the prefix
+					eng.InstrsShallow(v.Parent(), func(i2 ssa.Instruction) {
+						bo, ok := i2.(*ssa.BinOp)
+						if !ok || bo.Op != token.EQL || pt.sepChecked {
+							return
+						}
+						for _, q := range [][2]ssa.Value{{bo.X, bo.Y}, {bo.Y, bo.X}} {
+							var lkX, lkI ssa.Value
+							switch e := q[0].(type) {
+							case *ssa.Lookup:
+								lkX, lkI = e.X, e.Index
+							case *ssa.Index:
+								lkX, lkI = e.X, e.Index
+							}
+							k, isK := eng.ConstInt(q[1])
+							if lkX == nil || !isK || (k != '/' && k != '\\') || !eng.SameValue(lkX, sl.X) {
+								continue
+							}
+							il, isLen := lkI.(*ssa.Call)
+							if !isLen || c.P.CalleeName(il) != "builtin:len" || len(il.Call.Args) != 1 {
+								continue
+							}
+							if !(eng.SameValue(il.Call.Args[0], o[1]) || x.StructKeyAtEntry(il.Call.Args[0]) == x.StructKeyAtEntry(o[1])) {
+								continue
+							}
+							hit, und := c.ReachableUnder(v.Parent(), map[string]bool{x.KeyAtEntry(bo): false}, nil, func(i3 ssa.Instruction) bool { return i3 == ssa.Instruction(v) })
+							if !und && hit == nil {
+								pt.sepChecked = true
+							}
+						}
+					})
+					out = append(out, pt)
 					return
 				}
 			}
